@@ -233,11 +233,18 @@ type knowledge struct {
 	salts, digests, ids []string // typed pools
 	all                 []string // every string, in order of acquisition
 	seen                map[string]bool
+	src                 map[string]string // where a string was first seen: recorded | own | session<i> | derived
+	cur                 string
+	joins               []MessageJoin // the recorded join messages
 }
 
 func (k *knowledge) add(kind string, s string) {
 	if k.seen == nil {
 		k.seen = map[string]bool{}
+		k.src = map[string]string{}
+	}
+	if _, ok := k.src[s]; !ok {
+		k.src[s] = k.cur
 	}
 	if !k.seen[kind+"|"+s] {
 		k.seen[kind+"|"+s] = true
@@ -288,6 +295,8 @@ func (k *knowledge) learn(m any) {
 
 // derive: digests computed the way the protocol computes them, with a guessed or empty cookie
 func (k *knowledge) derive(salt, digest string) {
+	defer func(c string) { k.cur = c }(k.cur)
+	k.cur = "derived"
 	for _, guess := range []string{"", "guess"} {
 		k.add("digest", h256(salt+":"+guess))
 		k.add("digest", h256(salt+":"+digest+":"+guess))
@@ -296,6 +305,7 @@ func (k *knowledge) derive(salt, digest string) {
 }
 
 func (k *knowledge) own() {
+	k.cur = "own"
 	k.add("salt", "adversary-salt")
 	k.add("salt", "")
 	k.add("digest", "")
@@ -426,15 +436,19 @@ func buildMsg(a action, p pools, victim namedNode) any {
 // runPath plays an action sequence against fresh honest sessions; it returns the knowledge at the end,
 // the sessions, and whether every session still waits for input
 type pathResult struct {
+	last     any // the message of the last action
 	k        *knowledge
 	sessions []*session
 	bad      bool // an index was out of range (cannot happen for paths produced by the search)
 }
 
 func runPath(hs gen.NetworkHandshake, recorded []any, roles []string, typed bool, path []action) pathResult {
-	k := &knowledge{}
+	k := &knowledge{cur: "recorded"}
 	for _, m := range recorded {
 		k.learn(m)
+		if j, ok := m.(MessageJoin); ok {
+			k.joins = append(k.joins, j)
+		}
 	}
 	k.own()
 	var ss []*session
@@ -449,7 +463,8 @@ func runPath(hs gen.NetworkHandshake, recorded []any, roles []string, typed bool
 		ss = append(ss, startSession(hs, r, who[i%2], joinID))
 	}
 	absorb := func() {
-		for _, s := range ss {
+		for si, s := range ss {
+			k.cur = fmt.Sprintf("session%d", si)
 			if s.closed {
 				continue
 			}
@@ -487,10 +502,22 @@ func runPath(hs gen.NetworkHandshake, recorded []any, roles []string, typed bool
 			pr.bad = true
 			return pr
 		}
-		s.feed(frame(hs.(*handshake), buildMsg(a, p, who[a.Session%2])))
+		pr.last = buildMsg(a, p, who[a.Session%2])
+		s.feed(frame(hs.(*handshake), pr.last))
 		absorb()
 	}
 	return pr
+}
+
+// liveJoin: the last message is a join whose id, salt and digest were all produced by the given honest
+// session in this very run (the adversary passes a join on while it happens)
+func liveJoin(x pathResult, from int) bool {
+	j, ok := x.last.(MessageJoin)
+	if !ok {
+		return false
+	}
+	src := fmt.Sprintf("session%d", from)
+	return x.k.src[j.Salt] == src && x.k.src[j.Digest] == src
 }
 
 func (pr pathResult) finish() {
@@ -536,17 +563,47 @@ func adversarySearch(c *harn.Ctx, r *harn.Result, roles []string, typed bool, de
 				case x.bad:
 					outcome = "bad-index"
 					r.Fail("harness-bad-index", "path %v", np)
-				case s.closed && s.err == nil && oracle && s.res.Peer != evil && !(s.role == "accept" && a.Type == "join"):
+				case s.closed && s.err == nil && oracle && s.res.Peer != evil && !(s.role == "accept" && a.Type == "join" && !liveJoin(x, 1-a.Session)):
 					// the adversary only relayed between two honest sessions: each of them is connected to
 					// a node that knows the cookie, under that node's name
 					outcome = "completed-by-relay:" + s.role + ":" + a.Type
 				case s.closed && s.err == nil:
 					outcome = "completed:" + a.Type
+					// what exactly made it complete decides the kind: the known weaknesses are named narrowly
+					// (a true replay of a recorded join; a digest that an honest session computed in this very
+					// run), everything else is an unclassified break of the authentication
 					kind := "adversary-completed-handshake"
-					if s.role == "accept" && a.Type == "join" {
-						kind = "replayed-join-accepted"
+					other := fmt.Sprintf("session%d", 1-a.Session)
+					if j, ok := x.last.(MessageJoin); ok && s.role == "accept" {
+						kind = "forged-join-accepted"
+						if liveJoin(x, 1-a.Session) {
+							kind = "relayed-join-accepted-under-chosen-name"
+						}
+						for _, rj := range x.k.joins {
+							if rj.ConnectionID == j.ConnectionID && rj.Salt == j.Salt && rj.Digest == j.Digest {
+								kind = "replayed-join-accepted"
+							}
+						}
 					} else if oracle {
-						kind = "authenticated-by-relay-as-" + s.role + "-peer"
+						// the digests the victim checked on the way: all must stem from the honest oracle session
+						relayed := true
+						for _, pa := range np {
+							if pa.Session != a.Session {
+								continue
+							}
+							pp := poolsOf(x.k, typed)
+							switch pa.Type {
+							case "hello":
+								relayed = relayed && x.k.src[pp.digests[pa.F[1]]] == other
+							case "intro":
+								if s.role == "accept" {
+									relayed = relayed && x.k.src[pp.digests[pa.F[0]]] == other
+								}
+							}
+						}
+						if relayed {
+							kind = "authenticated-by-relay-as-" + s.role + "-peer"
+						}
 					}
 					r.Fail(kind, "%s (%s) returned success to a peer that does not know the cookie after %v; result peer=%q id=%q flags=%+v",
 						s.role, roles, np, s.res.Peer, s.res.ConnectionID, s.res.NodeFlags)
